@@ -68,9 +68,11 @@ type c19Opener struct {
 	openErr  map[string]bool
 	readErr  map[string]int
 	chunk1   bool
-	opened   []string
-	fired    map[string]int
-	unclosed int
+	// eofWithData: readers return the last bytes together with io.EOF
+	eofWithData bool
+	opened      []string
+	fired       map[string]int
+	unclosed    int
 	// mu guards the bookkeeping: nothing says that Hash1 reads the files one at a time or on the
 	// calling goroutine
 	mu sync.Mutex
@@ -106,6 +108,9 @@ func (r *c19Reader) Read(p []byte) (int, error) {
 	}
 	copy(p, r.data[r.off:r.off+n])
 	r.off += n
+	if r.o.eofWithData && r.off >= len(r.data) && r.failAt < 0 {
+		return n, io.EOF // io.Reader allows the last bytes to come together with io.EOF
+	}
 	return n, nil
 }
 func (r *c19Reader) Close() error {
@@ -187,7 +192,7 @@ func c19Explore(src *choice.Src) *core.Result {
 			list[i] = names[p]
 		}
 		orig := append([]string(nil), list...)
-		op := &c19Opener{files: files, fired: map[string]int{}, chunk1: src.Bool(1, 4)}
+		op := &c19Opener{files: files, fired: map[string]int{}, chunk1: src.Bool(1, 4), eofWithData: src.Bool(1, 4)}
 		if src.Bool(1, 3) {
 			// a caller with parallel name/content slices: content is found by position in the list given to Hash1
 			op.parallel, op.pnames = true, list
